@@ -171,6 +171,66 @@ fn stuck_proof(log: &[vh::Event], threads: usize) -> Option<String> {
     None
 }
 
+/// (tid, state, voluntary + involuntary context switches) of every thread of this process except the caller
+fn thread_snapshot() -> Vec<(u64, char, u64)> {
+    let me = unsafe { libc::syscall(libc::SYS_gettid) } as u64;
+    let mut v = Vec::new();
+    if let Ok(rd) = std::fs::read_dir("/proc/self/task") {
+        for e in rd.flatten() {
+            let Some(tid) = e.file_name().to_str().and_then(|s| s.parse::<u64>().ok()) else { continue };
+            if tid == me {
+                continue;
+            }
+            let Ok(st) = std::fs::read_to_string(e.path().join("status")) else { continue };
+            let mut state = '?';
+            let mut sw = 0u64;
+            for l in st.lines() {
+                if let Some(x) = l.strip_prefix("State:") {
+                    state = x.trim().chars().next().unwrap_or('?');
+                } else if let Some(x) = l.strip_prefix("voluntary_ctxt_switches:").or_else(|| l.strip_prefix("nonvoluntary_ctxt_switches:")) {
+                    sw += x.trim().parse::<u64>().unwrap_or(0);
+                }
+            }
+            v.push((tid, state, sw));
+        }
+    }
+    v.sort();
+    v
+}
+
+/// OS-level proof of a stuck process, independent of which lock or wait is involved: over three
+/// samples 2.5 s apart every other thread of this process is asleep in the kernel ('S') and its
+/// context-switch counters have not moved, and the event log has not grown. ragc's only timed waits
+/// are sleeps of <= 100 ms (they would show up as context switches), nothing in the child waits for
+/// input from outside, and the caller (the watchdog) wakes nobody: so no thread can ever run again.
+/// A merely slow run has a thread that is runnable ('R'), in disk wait, or switching.
+fn os_stuck_proof() -> Option<String> {
+    let s0 = thread_snapshot();
+    let l0 = vh::log_len();
+    if s0.is_empty() || s0.iter().any(|t| t.1 != 'S') {
+        return None;
+    }
+    for _ in 0..2 {
+        std::thread::sleep(Duration::from_millis(2500));
+        if thread_snapshot() != s0 || vh::log_len() != l0 {
+            return None;
+        }
+    }
+    Some(format!("none of the {} threads of the pipeline process ran during 5 s: all are asleep in the kernel with unchanged context-switch counters, and no event was logged", s0.len()))
+}
+
+fn last_events(log: &[vh::Event]) -> String {
+    let mut last: std::collections::BTreeMap<u64, &vh::Event> = Default::default();
+    for e in log {
+        last.insert(e.thread, e);
+    }
+    let mut kinds: std::collections::BTreeMap<&str, usize> = Default::default();
+    for e in last.values() {
+        *kinds.entry(e.kind).or_insert(0) += 1;
+    }
+    kinds.iter().map(|(k, n)| format!("{} x {}", n, k)).collect::<Vec<_>>().join(", ")
+}
+
 pub fn child_main(args: &[String]) -> i32 {
     install_panic_hook();
     let Some(spec) = std::fs::read_to_string(&args[0]).ok().and_then(|t| serde_json::from_str::<Spec>(&t).ok()) else {
@@ -217,11 +277,15 @@ pub fn child_main(args: &[String]) -> i32 {
     let mut outcome = Outcome::default();
     let mut last_len = 0usize;
     let mut last_change = Instant::now();
+    let mut os_proof: Option<String> = None;
+    let mut os_tried = 0u32;
     let result = loop {
         match rx.recv_timeout(Duration::from_millis(200)) {
             Ok(r) => break Some(r),
             Err(std::sync::mpsc::RecvTimeoutError::Timeout) => {
-                if start.elapsed() > deadline {
+                // past the deadline: give up only when the log has stopped growing (a run that still
+                // logs events is slow - e.g. on a loaded machine - not stuck), or at 6 x the deadline
+                if start.elapsed() > deadline && (last_change.elapsed() > Duration::from_secs(30) || start.elapsed() > 6 * deadline) {
                     break None;
                 }
                 // no event for 4 s: if the log already proves a stuck state there is no point in waiting
@@ -231,6 +295,13 @@ pub fn child_main(args: &[String]) -> i32 {
                     last_change = Instant::now();
                 } else if last_change.elapsed() > Duration::from_secs(4) && stuck_proof(&vh::snapshot_log(), params.threads as usize).is_some() {
                     break None;
+                } else if last_change.elapsed() > Duration::from_secs(8 + 10 * os_tried as u64) && os_tried < 6 {
+                    // the log proves nothing (e.g. a thread blocked on a lock the hooks do not see): ask the OS
+                    os_tried += 1;
+                    os_proof = os_stuck_proof();
+                    if os_proof.is_some() {
+                        break None;
+                    }
                 }
             }
             Err(_) => break Some(Err("the create thread vanished".to_string())),
@@ -261,7 +332,10 @@ pub fn child_main(args: &[String]) -> i32 {
         Some(Err(p)) => format!("panic: {}", p),
         None => match stuck_proof(&log, threads) {
             Some(why) => format!("stuck: {}", why),
-            None => "slow".to_string(),
+            None => match os_proof.or_else(os_stuck_proof) {
+                Some(why) => format!("stuck: {} (last logged event per thread: {})", why, last_events(&log)),
+                None => "slow".to_string(),
+            },
         },
     };
     if finished {
@@ -283,7 +357,7 @@ pub fn run_spec(spec: &Spec, dir: &std::path::Path, tag: &str) -> Result<Outcome
     let _ = std::fs::remove_file(&of);
     let mut cmd = std::process::Command::new(std::env::current_exe().map_err(|e| e.to_string())?);
     cmd.args(["child", "pipeline"]).arg(&sf).arg(&of);
-    let o = crate::pipeline::run_cmd(cmd, Duration::from_secs(spec.watchdog_s + 60)).map_err(|e| e.to_string())?;
+    let o = crate::pipeline::run_cmd(cmd, Duration::from_secs(6 * spec.watchdog_s + 120)).map_err(|e| e.to_string())?;
     match std::fs::read_to_string(&of).ok().and_then(|t| serde_json::from_str::<Outcome>(&t).ok()) {
         Some(out) => Ok(out),
         None => Err(format!("pipeline child left no outcome: {}", o.describe())),
